@@ -70,6 +70,10 @@ type HarnessSpec struct {
 	Cfg      Config
 	Workers  int
 	MaxPaths int
+	// StopAfterViolations ends the exploration once that many violating paths were found (0: never):
+	// a change that breaks the property on most paths is then reported in minutes instead of
+	// exhausting the path space of its wreckage
+	StopAfterViolations int
 	Solver   string
 	Witness  int // number of ok paths for which a model is extracted
 	Deadline time.Time
@@ -221,7 +225,8 @@ func (w *World) Explore(spec HarnessSpec) (*Report, error) {
 					cond.Broadcast()
 					return
 				}
-				if (spec.MaxPaths > 0 && rep.Paths >= spec.MaxPaths) || (!spec.Deadline.IsZero() && time.Now().After(spec.Deadline)) {
+				if (spec.MaxPaths > 0 && rep.Paths >= spec.MaxPaths) || (!spec.Deadline.IsZero() && time.Now().After(spec.Deadline)) ||
+					(spec.StopAfterViolations > 0 && rep.Kinds["violation"] >= spec.StopAfterViolations) {
 					rep.Truncated = true
 					stack = nil
 					mu.Unlock()
